@@ -85,6 +85,7 @@ type pathState struct {
 	obligsConc int // obligations that were concrete
 	pending    [][]Dec
 	samples    []string
+	script     strings.Builder // path-level declarations, definitions and assertions
 }
 
 func (ps *pathState) fail(kind, format string, args ...interface{}) {
@@ -102,26 +103,64 @@ func psOf(t *sym.Term) *pathState { return t.C.User.(*pathState) }
 
 func (ps *pathState) ensure() {
 	if ps.slv.Lost {
-		if ps.pushed {
-			// solver process was killed and restarted mid-path
-			ps.pushed = false
-			ps.slv.Lost = false
-			ps.fail("budget", "solver was killed (hard time limit) and restarted; path abandoned: %s", ps.slv.LastError)
-		}
 		ps.slv.Lost = false
+		if ps.pushed {
+			// the solver process was killed (hard time limit) and restarted
+			// mid-path: rebuild its state from the path-level script
+			ps.slv.Send("(push)\n" + ps.script.String())
+		}
 	}
 	if !ps.pushed {
 		ps.slv.ResetTranscript()
 		ps.slv.Send("(push)\n")
 		ps.pr.Push()
 		ps.pushed = true
+		ps.script.Reset()
 	}
 	for ps.flushed < len(ps.pc) {
 		r := ps.pr.Ref(ps.pc[ps.flushed])
-		ps.slv.Send(ps.pr.Take() + "(assert " + r + ")\n")
+		ps.sendPathLevel(ps.pr.Take() + "(assert " + r + ")\n")
 		ps.flushed++
 	}
 }
+
+// sendPathLevel sends declarations/definitions/assertions that stay for the
+// rest of the path and keeps them as a stand-alone script for the fallback
+// solvers.
+func (ps *pathState) sendPathLevel(text string) {
+	if text == "" {
+		return
+	}
+	ps.script.WriteString(text)
+	ps.slv.Send(text)
+}
+
+// secondOpinion re-runs one query stand-alone (fresh process, no incremental
+// state) on the other installed solvers. Used when the primary solver answers
+// unknown/timeout, and in the thorough tier to cross-check unsat verdicts.
+func (ps *pathState) secondOpinion(refs []string, kinds ...solver.Kind) solver.Result {
+	var sb strings.Builder
+	sb.WriteString(ps.script.String())
+	for _, r := range refs {
+		sb.WriteString("(assert " + r + ")\n")
+	}
+	sb.WriteString("(check-sat)\n")
+	for _, k := range kinds {
+		res, err := solver.OneShot(k, sb.String(), ps.i.cfg.SolverTimeout*2)
+		ps.i.stats.SolverQueries++
+		atomic.AddInt64(&FallbackQueries, 1)
+		if err == nil && res != solver.Unknown {
+			return res
+		}
+	}
+	return solver.Unknown
+}
+
+// FallbackQueries counts stand-alone queries sent to the secondary solvers.
+var FallbackQueries int64
+
+// CrossCheck makes every unsat obligation verdict be confirmed by a second solver.
+var CrossCheck bool
 
 func (ps *pathState) finishSolver() {
 	if ps.pushed {
@@ -146,22 +185,53 @@ func (ps *pathState) check(extra ...*sym.Term) solver.Result {
 	for _, e := range extra {
 		refs = append(refs, ps.pr.Ref(e))
 	}
+	ps.sendPathLevel(ps.pr.Take())
 	var sb strings.Builder
-	sb.WriteString(ps.pr.Take())
 	sb.WriteString("(push)\n")
 	for _, r := range refs {
 		sb.WriteString("(assert " + r + ")\n")
 	}
 	res := ps.slv.Check(sb.String())
 	ps.i.stats.SolverQueries++
-	if res == solver.Unknown {
-		ps.i.stats.SolverUnknown++
-		ps.i.lastUnknown = ps.slv.LastError
-		ps.dumpUnknown()
+	lost := ps.slv.Lost
+	if !lost {
+		ps.slv.Send("(pop)\n")
 	}
-	ps.slv.Send("(pop)\n")
+	if res == solver.Unknown {
+		ps.dumpUnknown()
+		// stand-alone retry on the other solvers (cvc5 first: it bit-blasts
+		// multiplication/shift chains that stall z3's incremental core)
+		if r2 := ps.secondOpinion(refs, solver.CVC5, solver.Z3); r2 != solver.Unknown {
+			res = r2
+		} else {
+			ps.i.stats.SolverUnknown++
+			ps.i.lastUnknown = ps.slv.LastError
+		}
+	}
 	return res
 }
+
+// checkObligation is check() for a final obligation: in cross-check mode an
+// unsat verdict must be confirmed by a second solver.
+func (ps *pathState) checkObligation(neg *sym.Term) solver.Result {
+	res := ps.check(neg)
+	if res == solver.Unsat && CrossCheck && !neg.IsConst() {
+		ref := ps.pr.Ref(neg)
+		ps.sendPathLevel(ps.pr.Take())
+		r2 := ps.secondOpinion([]string{ref}, solver.CVC5)
+		if r2 == solver.Sat {
+			ps.i.lastUnknown = "solvers disagree: z3 unsat, cvc5 sat"
+			return solver.Unknown
+		}
+		if r2 == solver.Unsat {
+			atomic.AddInt64(&CrossChecked, 1)
+		}
+	}
+	return res
+}
+
+// CrossChecked counts obligations whose unsat verdict was confirmed by cvc5.
+var CrossChecked int64
 
 var dumpSeq int32
 
@@ -189,8 +259,8 @@ func (ps *pathState) checkModel(extra ...*sym.Term) (solver.Result, map[string]u
 	for _, v := range ps.cx.Vars {
 		ps.pr.Ref(v)
 	}
+	ps.sendPathLevel(ps.pr.Take())
 	var sb strings.Builder
-	sb.WriteString(ps.pr.Take())
 	sb.WriteString("(push)\n")
 	for _, r := range refs {
 		sb.WriteString("(assert " + r + ")\n")
@@ -230,8 +300,8 @@ func (ps *pathState) valueOf(t *sym.Term, extra ...*sym.Term) (solver.Result, ui
 	for _, e := range extra {
 		refs = append(refs, ps.pr.Ref(e))
 	}
+	ps.sendPathLevel(ps.pr.Take())
 	var sb strings.Builder
-	sb.WriteString(ps.pr.Take())
 	sb.WriteString("(push)\n")
 	for _, r := range refs {
 		sb.WriteString("(assert " + r + ")\n")
@@ -440,7 +510,7 @@ func (ps *pathState) asBoolTerm(v value) *sym.Term {
 // (pc ∧ neg satisfiable means violated). It partitions by known regions.
 // Returns true if any violation exists.
 func (ps *pathState) violated(kind, msg string, neg *sym.Term) bool {
-	res := ps.check(neg)
+	res := ps.checkObligation(neg)
 	if res == solver.Unsat {
 		return false
 	}
